@@ -12,10 +12,11 @@
    C07 state is [ll_add decoded ll_clear], the code path of UnmarshalJSON on the pointer-structure model. *)
 From VF Require Import C07.Model C07.Spec C07.Proofs C07.ProofsArray C07.ProofsLinked
   C08.Model C08.Spec C08.Proofs C08.ProofsCirc C08.ProofsHeap C15.SeqJson.
-From VF Require C15.Model C15.Proofs.
+From VF Require C15.Model C15.Proofs C15.ProofsRing.
 Local Open Scope nat_scope.
 
 Module JP := VF.C15.Proofs.
+Module JR := VF.C15.ProofsRing.
 
 Section Seq.
   Variable enc : Z -> jval.
@@ -207,4 +208,48 @@ Section Seq.
     intros ops. exact (proj1 (qrun_sim cb_step (lastn_step cap) (CInv cap) (cb_step_sim cap cap_pos) ops _ _ (ring_CInv l HL))).
   Qed.
   End Ring.
+
+  (* ----- circular buffer: a document of ANY length (written by a ring of any capacity, or by an array list) decoded
+     into a fresh buffer of ANY capacity: the last min(cap, n) values, oldest first, and the bounded FIFO from then on ----- *)
+  Lemma RingInv_CInv cap q l : JR.RingInv 0%Z cap q l -> CInv cap (cb_of_json q) l.
+  Proof.
+    intros [H1 H2 H3 H4 H5 H6 H7 H8]. unfold cb_of_json.
+    constructor; cbn [cb_max cb_v cb_s cb_n cb_e cb_f]; assumption.
+  Qed.
+  Lemma no_zero_test_false : forall v, no_zero_test v = false.
+  Proof. reflexivity. Qed.
+
+  Lemma doc_into_ring cap (cap_pos : 1 <= cap) (l : list Z) :
+    exists q', J.cb_unmarshal dec 0%Z no_zero_test (J.seq_marshal enc l) (J.cb_fresh 0%Z cap) = Some q' /\
+      J.cb_values 0%Z q' = skipn (length l - cap) l /\
+      forall ops, snd (qrun cb_step (cb_of_json q') ops) = snd (qrun (lastn_step cap) (skipn (length l - cap) l) ops).
+  Proof.
+    destruct (JR.cb_decode_any 0%Z no_zero_test no_zero_test_false cap cap_pos enc dec dec_enc l) as (q' & E & I & V & _).
+    exists q'. split; [exact E|]. split; [exact V|]. intros ops.
+    exact (proj1 (qrun_sim cb_step (lastn_step cap) (CInv cap) (cb_step_sim cap cap_pos) ops _ _ (RingInv_CInv cap q' _ I))).
+  Qed.
+
+  Theorem cb_restored_obeys_any cap0 cap (cap0_pos : 1 <= cap0) (cap_pos : 1 <= cap) ops0 :
+    let c := fst (qrun cb_step (cb0 cap0) ops0) in
+    let l := fst (qrun (lastn_step cap0) [] ops0) in
+    exists q', J.cb_unmarshal dec 0%Z no_zero_test (J.cb_marshal enc 0%Z (cb_json c)) (J.cb_fresh 0%Z cap) = Some q' /\
+      J.cb_values 0%Z q' = skipn (length l - cap) l /\
+      forall ops, snd (qrun cb_step (cb_of_json q') ops) = snd (qrun (lastn_step cap) (skipn (length l - cap) l) ops).
+  Proof.
+    intros c l. destruct (qrun_sim cb_step (lastn_step cap0) (CInv cap0) (cb_step_sim cap0 cap0_pos) ops0 (cb0 cap0) [] (empty_inv cap0 cap0_pos)) as [_ I].
+    fold c l in I. unfold J.cb_marshal, J.cb_marshal_with. rewrite (cb_values_json cap0 cap0_pos c l I).
+    exact (doc_into_ring cap cap_pos l).
+  Qed.
+
+  Theorem al_into_ring_obeys cap (cap_pos : 1 <= cap) ops0 :
+    let c := fst (run al_step al0 ops0) in
+    let l := fst (run seq_step [] ops0) in
+    exists q', J.cb_unmarshal dec 0%Z no_zero_test (J.al_marshal enc (al_json c)) (J.cb_fresh 0%Z cap) = Some q' /\
+      J.cb_values 0%Z q' = skipn (length l - cap) l /\
+      forall ops, snd (qrun cb_step (cb_of_json q') ops) = snd (qrun (lastn_step cap) (skipn (length l - cap) l) ops).
+  Proof.
+    intros c l. destruct (run_sim al_step RA al_step_sim ops0 al0 [] RA_al0) as [_ HR]. fold c l in HR.
+    unfold J.al_marshal, J.al_marshal_with. cbn [andb]. rewrite (al_abs_json c l HR).
+    exact (doc_into_ring cap cap_pos l).
+  Qed.
 End Seq.
